@@ -225,8 +225,20 @@ def parse_py(text: str) -> List[Dict[str, Any]]:
             for b in n.body + n.bases + n.decorator_list:
                 ids.extend(_py_idents(b))
             is_msg = any(ast.unparse(b) == "bp.MessageBase" for b in n.bases)
+            attrs: List[str] = []
+            for b in n.body:
+                if isinstance(b, ast.AnnAssign) and isinstance(b.target, ast.Name):
+                    attrs.append(b.target.id)
+                elif isinstance(b, ast.Assign) and len(b.targets) == 1 and isinstance(b.targets[0], ast.Name):
+                    attrs.append(b.targets[0].id)
+                elif isinstance(b, ast.FunctionDef):
+                    attrs.append(b.name)
+                elif isinstance(b, ast.Pass) or (isinstance(b, ast.Expr) and isinstance(b.value, ast.Constant)):
+                    continue
+                else:
+                    raise ParseError(f"unexpected statement in class {n.name}: {ast.unparse(b)[:60]!r}")
             items.append({"k": "decl", "kind": "DkPyClass", "name": n.name, "idents": ids,
-                          "members": nfields if is_msg else 0})
+                          "members": nfields if is_msg else 0, "attrs": attrs})
             continue
         if isinstance(n, ast.FunctionDef):
             items.append({"k": "decl", "kind": "DkPyDef", "name": n.name, "idents": _py_idents(n), "members": 0})
